@@ -119,7 +119,12 @@ def check(tier, replay=None):
             ops, inp2 = engcheck.reuse_history(g, p, f"{pid}_u{j}", pid, inp, run2="runp" if (pi + j) % 2 else "run",  # (scc_iters accumulates over the runs of a value: not compared here)
                                                force_clear=g.choice(heads) if heads and j % 2 == 0 else None)
             cases.append(engcheck.Case(pid, f"{pid}_u{j}", ops, {"inp": inp, "phases": [inp, inp2], "kind": "reuse"}))
-    res = engcheck.run_cases(r, "c01", progs, cases, model=proof.ok or os.path.exists(core.lean_driver()))
+    # printer-level sugar on every second program: `if let Some(v) = e` is written `if let at_v @ Some(v) = e` - an `ident @ subpattern` binding; the variables bound INSIDE
+    # the sub-pattern are bound by the pattern like any other (a later clause that mentions one is a join on it, not a fresh column)
+    at_nm = eng.Names(); at_nm.at_patterns = True
+    mods01 = [(pid, eng.rs_module(pid, p, nm=at_nm if k % 2 == 1 else None)) for k, (pid, p) in enumerate(progs.items())]
+    r.cov["programs_with_at_patterns"] = sum(1 for k, (pid, p) in enumerate(progs.items()) if k % 2 == 1 and any(c[0] == "iflet" for ru in p["rules"] for it in ru["body"] for c in ([it] + (list(it[3]) if it[0] == "cl" else []))))
+    res = engcheck.run_cases(r, "c01", progs, cases, modules=mods01, model=proof.ok or os.path.exists(core.lean_driver()))
     if res is None: return r.finish(TRUSTED)
     outs, (pimpl, pmod) = res
     d = tiec.Decision(r)
